@@ -4,6 +4,9 @@ import "verif/sim/kit"
 
 // chainsim: replay protection (C11) and proposer-side block validity (C37).
 func init() {
+	// tracker and manager locks are scheduling points (kit/instrument): a list can be validated on one
+	// goroutine while an ancestor is being finalised on another and waits for the flusher
+	kit.EngineInstrument["chainsim"] = []string{"common/txlocator/manager.go"}
 	kit.Register(&kit.PropertySpec{
 		ID: "C11", Engine: "chainsim",
 		Profiles: []kit.ProfileSpec{{Name: "faultfree", Weight: 5}, {Name: "crash", Weight: 3}, {Name: "faults", Weight: 2}, {Name: "transitions", Weight: 2}},
@@ -11,7 +14,8 @@ func init() {
 		// because the runner keeps every result (with its first 40 events) in memory: ~8 KB per run.
 		QuickRuns: 24000, QuickBudgetS: 45, ThoroughRuns: 500000, ThoroughBudgetS: 600,
 		Rule: "one run = one tape-drawn history over a TREE of blocks (height, timestamp, threshold): create a child logger under a chosen finalised-head or unfinalised block, " +
-			"validate a transaction list on it (TXIDLogger.Add force=false, then the timestamp-range check of every transaction), commit a chosen unfinalised block (its ancestors are committed with it), " +
+			"validate a transaction list on it (TXIDLogger.Add force=false, then the timestamp-range check of every transaction), commit a chosen unfinalised block (its ancestors are committed with it; " +
+			"in a third of the commits with a pending descendant, that descendant's list is validated on a second goroutine started the moment the commit waits for the flusher: the locks of common/txlocator/manager.go are scheduling points), " +
 			"let the background flusher perform 1..8 database writes (its every Set is a scheduled event, also inside another operation's database lookup), crash+restart the manager over the surviving database (profiles crash, faults), " +
 			"inject a locator-bucket write error (profile faults). Lists mix fresh transactions with duplicates of the same list / an unfinalised ancestor at any depth / a finalised ancestor (cached, evicted-but-in-DB, being flushed) / a sibling branch; " +
 			"timestamps are drawn on bts-th, bts-th+1, bts+th-1, bts+th, bts+th+1 of the block and of its ancestors; thresholds are constant, growing, shrinking or free along a chain; timestamps never decrease along a chain. " +
@@ -25,7 +29,7 @@ func init() {
 			"dup_rejected:unfinalised-ancestor", "dup_rejected:finalised-cached", "dup_rejected:finalised-evicted-in-db", "dup_rejected:finalised-being-flushed", "dup_rejected:same-list",
 			"ts_edge:bts-th", "ts_edge:bts-th+1", "ts_edge:bts+th", "ts_edge:bts+th+1",
 			"th_shrink_step", "th_grow_step", "dup_lookup_through_shrunk_threshold", "dup_lookup_after_grown_threshold",
-			"manager_restart", "flush_error", "dup_at_holder_upper_edge",
+			"manager_restart", "flush_error", "dup_at_holder_upper_edge", "add_overlaps_commit_of_ancestor",
 			// profile transitions
 			"threshold_changed_on_chain", "threshold_raised_on_chain", "threshold_lowered_on_chain",
 			"block_validated_before_threshold_state_finalized", "block_validated_after_threshold_state_finalized",
